@@ -4,6 +4,7 @@
 // position, so (r, w) and (r+1, 0) are the same linear position.  Every operation may fail
 // (C18): then only geometry and well-formedness are guaranteed.
 struct IoError { k: u8 }
+impl std::fmt::Debug for IoError { #[verifier::external_body] fn fmt(&self, f: &mut std::fmt::Formatter<'_>) -> std::fmt::Result { unimplemented!() } }
 enum Cell { Blank, Vis(Seq<char>, nat) }     // Vis(s, j): the j-th visible column of the string s that was written
 struct GTerm {
     w: nat, h: nat, tty: bool,
